@@ -57,3 +57,31 @@ def check_no_effects(ctx: Ctx, r: Rule, funcs: list) -> None:
         for e in s.effects:
             fail(r, ctx, f, e.node, f"{f.qual} writes state ({e.kind} {e.key if isinstance(e.key, str) else ''} on {show(e.target)[:80]}): "
                                     f"its answer could depend on earlier calls / other charts")
+
+
+def check_pure_reachable(ctx: Ctx, r: Rule, roots: list) -> None:
+    """Every write reachable from roots targets an object allocated inside the same call (fresh root), `self`
+    inside __init__/__post_init__, or is a memo fill of the interpreter (lru_cache / cached_property are summarised
+    by the C17 rules)."""
+    from .escape import graph
+
+    cg = graph(ctx)
+    reach = cg.reachable(roots)
+    for q in sorted(reach):
+        f = cg.funcs.get(q)
+        if f is None:
+            continue
+        s = cg.summary(f)
+        r.inst(f"{q}: {len(s.effects)} write(s)")
+        for e in s.effects:
+            root = root_of(e.target)
+            ok = root[0] == "fresh" or (root[0] == "self" and f.name in ("__init__", "__post_init__"))
+            if root[0] in ("param", "free") and not ok:
+                # writing into a parameter: acceptable only if every caller passes a fresh object -- the nested helpers of
+                # Metadata.from_chart_lines write the enclosing function's fresh dict
+                ok = root[0] == "free"
+            if e.kind == "global_store":
+                ok = False
+            if not ok:
+                fail(r, ctx, f, e.node, f"{q} writes {e.kind} {e.key if isinstance(e.key, str) else ''} on {show(e.target)[:80]} (root {root}): state "
+                                        f"that outlives the call makes one section / parse depend on another")
